@@ -109,6 +109,23 @@ def evaluate(case):
             fails.append("fourier_transform: an integer-typed output grid gives different (truncated) values than the same grid as floats")
     except Exception as ex:  # noqa: BLE001
         fails.append(f"fourier_transform: an integer-typed output grid raises {type(ex).__name__}")
+    # an explicit window [x_k, x_m] on a grid that has points a few parts in 10^6 outside either limit (merged banks): the value is the
+    # trapezoid integral over the points with x_k <= x <= x_m, nothing more
+    if len(x) >= 6 and x[1] > 0:
+        k, m_ = 1, len(x) - 2
+        eps = 3e-6
+        lo_out, hi_out = x[k] * (1 - eps), x[m_] * (1 + eps)
+        if x[k - 1] < lo_out and hi_out < x[m_ + 1]:
+            xw = np.concatenate([x[:k], [lo_out], x[k:m_ + 1], [hi_out], x[m_ + 1:]])
+            yw = np.concatenate([y[:k], [y[k] + 1.0], y[k:m_ + 1], [y[m_] - 1.0], y[m_ + 1:]])
+            _, vw, _ = tr.fourier_transform(xw, yw, xo, xmin=float(x[k]), xmax=float(x[m_]))
+            scw = float(np.sum(np.abs(weights(x[k:m_ + 1])) * np.abs(y[k:m_ + 1]))) + 1e-300
+            for j, t in enumerate(xo):
+                ref = direct(x[k:m_ + 1], y[k:m_ + 1], t)
+                if abs(np.asarray(vw)[j] - ref) > 1e-9 * scw:
+                    fails.append(f"fourier_transform(xmin={float(x[k])!r}, xmax={float(x[m_])!r}): value at x'={t!r} is {np.asarray(vw)[j]!r}, the trapezoid "
+                                 f"integral over the in-window points is {ref!r} (grid points {lo_out!r} and {hi_out!r} lie just outside the window)")
+                    break
     # "every input grid": a grid of dyadic values (multiples of 1/64, exactly representable and exactly subtractable in single precision)
     # held in a float32 array (as read from an HDF5/NeXus file) is the same grid as its float64 copy
     xd = np.rint(x[0] * 64) / 64 + np.concatenate([[0.0], np.cumsum(np.maximum(1.0, np.rint(np.diff(x) * 64))) / 64])
